@@ -91,7 +91,10 @@ def cases(draw):
     return {"kind": kind, "alg": alg, "keys": [gk.key_to_record(k) for k in keys], "kids": kids, "target": target,
             "other": draw(st.sampled_from([i for i in good_idx if i != target] or [target])), "ser": ser, "op": op, "kidstate": kidstate, "pos": pos,
             "keymode": draw(st.sampled_from(["set", "callable"])), "seed": draw(st.integers(0, 10**6)),
-            "sender_set": draw(st.booleans())}
+            "sender_set": draw(st.booleans()),
+            # how the application made the key objects: one parameters dict object (a constant such as {"use": "sig"}) handed to every
+            # import, keys without explicit kid read from PEM; and / or the application looked at key.kid before it built the set
+            "shared_params": draw(st.sampled_from([False, False, True])), "peek_kid": draw(st.sampled_from([False, False, True]))}
 
 
 def eff_kids(c):
@@ -101,11 +104,21 @@ def eff_kids(c):
 def build_sets(c):
     from joserfc.jwk import KeySet
     priv, pub = [], []
+    shared = [{"use": "sig" if c["kind"] == "jws" else "enc"}, {"use": "sig" if c["kind"] == "jws" else "enc"}] if c.get("shared_params") else None
     for rec, kid in zip(c["keys"], c["kids"]):
         k = gk.key_from_record(rec)
-        params = {"kid": kid} if kid is not None else None
-        priv.append(jkey(k, "dict", True, params))
-        pub.append(jkey(k if k["kty"] == "oct" else rk.public_of(k), "dict", k["kty"] == "oct", params))
+        form = "dict"
+        if shared is not None:
+            # the very same dict object for every key that has no kid of its own (one object per set: private side, public side)
+            params = [shared[0], shared[1]] if kid is None else [{"kid": kid, **shared[0]}] * 2
+            form = "pem" if kid is None else "dict"
+        else:
+            params = [{"kid": kid} if kid is not None else None] * 2
+        priv.append(jkey(k, form, True, params[0]))
+        pub.append(jkey(k if k["kty"] == "oct" else rk.public_of(k), form, k["kty"] == "oct", params[1]))
+    if c.get("peek_kid"):
+        for k in priv + pub:
+            k.kid    # noqa: the application logs / tests the kid before the set exists
     return KeySet(priv), KeySet(pub)
 
 
@@ -374,7 +387,7 @@ def run_roundtrip(c) -> dict:
     for k in back.keys:
         try:
             pubd = k.as_dict(private=False) if k.key_type != "oct" else k.as_dict()
-            ref = rk.parse_jwk({kk: v for kk, v in pubd.items() if kk != "kid"}, strict=True)
+            ref = rk.parse_jwk({kk: v for kk, v in pubd.items() if kk in ("kty", "crv", "x", "y", "d", "n", "e", "p", "q", "dp", "dq", "qi", "k")}, strict=True)
             got.append((k.kid, json.dumps(rk.export_jwk(ref, private=True), sort_keys=True)))
         except Exception as e:
             return {f"C14:keyset-roundtrip-key-unparsable:{type(e).__name__}": f"{e}"}
